@@ -17,7 +17,7 @@ pub const FLOORS: &[&str] = &[
     "op:BR", "op:ADD", "op:LD", "op:ST", "op:JSR", "op:AND", "op:LDR", "op:STR", "op:NOT",
     "op:LDI", "op:STI", "op:JMP", "op:STACK", "op:LEA", "op:TRAP",
     "stack_on", "stack_off", "push_r7_zero", "pop_r7_ffff", "addr_wrap", "br_cc_none",
-    "trap_known", "trap_unknown", "exit_0xee", "exit_1_stack_off", "input_eof",
+    "trap_known", "trap_unknown", "exit_0xee", "exit_1_stack_off", "input_eof", "through_run_loop", "through_run_loop:run_ended",
     "coincide:jsrr_r7", "coincide:push_r7", "coincide:pop_r7", "coincide:ldr_same",
 ];
 
@@ -438,6 +438,13 @@ fn one_case(
             reference.mem[a as usize] = v;
         }
     }
+    // one case in eight goes through the fetch/execute loop (see below): the word sits at PC-1
+    let via_loop = !cfg!(miri) && id % 8 == 3 && st.pc >= 1 && st.pc <= 0xFE00;
+    if via_loop {
+        let at = st.pc - 1;
+        env.verif_mem_mut()[at as usize] = w;
+        reference.mem[at as usize] = w;
+    }
     // undo log for the reference so that variant retries start from the same state
     let before = snapshot(reference);
     let ref_before_mem: Vec<(u16, u16)> = touched_addrs(w, st)
@@ -445,16 +452,70 @@ fn one_case(
         .map(|a| (a, reference.mem[a as usize]))
         .collect();
 
-    // ---- real execution under the monitor
+    // ---- real execution under the monitor. One case in eight goes through the fetch/execute loop
+    // of `run()` instead of calling `execute` directly: the word is put at PC-1 and the loop is given
+    // fuel for exactly one instruction (two iterations when the instruction ends the run, so that
+    // the loop itself gets to see that). What surrounds the instruction in that loop - fetch, PC
+    // increment, the end-of-run test - is part of executing it.
+    let mut ref_pc_after_probe: Option<u16> = None;
+    if via_loop {
+        env.verif_set(st.reg, st.pc - 1, st.cc);
+        // where does the reference go? (probe on a copy of the registers; memory effects are undone below)
+        let saved = (reference.reg, reference.pc, reference.cc);
+        let probe_mem: Vec<(u16, u16)> = touched_addrs(w, st).into_iter().map(|a| (a, reference.mem[a as usize])).collect();
+        reference.input = VecDeque::from(st.input.clone());
+        reference.variant = 0;
+        match reference.exec(w) {
+            Step::Next => ref_pc_after_probe = Some(reference.pc),
+            Step::Halt => ref_pc_after_probe = Some(0xFFFF),
+            _ => {}
+        }
+        reference.reg = saved.0;
+        reference.pc = saved.1;
+        reference.cc = saved.2;
+        for (a, v) in probe_mem {
+            reference.mem[a as usize] = v;
+        }
+        reference.out.clear();
+        reference.input_taken = 0;
+    }
     verif::install(Monitor {
         armed: true,
+        fuel: if via_loop { Some(if ref_pc_after_probe == Some(0xFFFF) { 2 } else { 1 }) } else { None },
         input: Some(VecDeque::from(st.input.clone())),
         ..Default::default()
     });
-    let end = guard(|| env.verif_execute(w));
+    let end = if via_loop { guard(|| env.run()) } else { guard(|| env.verif_execute(w)) };
     let m = verif::take().unwrap();
-    let real_out = m.out_normal;
+    let mut real_out = m.out_normal;
     let real_taken = m.input_taken;
+    let mut loop_verdict: Option<String> = None;
+    let end = if via_loop {
+        out.class("through_run_loop");
+        match (end, ref_pc_after_probe) {
+            // fuel ran out after the one instruction: the state is the state after that instruction
+            (Err(crate::exec::Abort::Fuel), Some(pc)) if pc != 0xFFFF => Ok(()),
+            (Err(crate::exec::Abort::Fuel), Some(_)) => {
+                loop_verdict = Some("the instruction left PC = xFFFF but the run loop went on to a third iteration".into());
+                Ok(())
+            }
+            (Ok(()), Some(0xFFFF)) => {
+                out.class("through_run_loop:run_ended");
+                // the loop's own end-of-line housekeeping is not program output
+                if real_out.ends_with('\n') {
+                    real_out.pop();
+                }
+                Ok(())
+            }
+            (Ok(()), Some(pc)) => {
+                loop_verdict = Some(format!("the run loop returned although the instruction left PC = x{:04X}", pc));
+                Ok(())
+            }
+            (other, _) => other,
+        }
+    } else {
+        end
+    };
 
     // ---- reference execution, trying admissible variants
     let mut matched = false;
@@ -508,6 +569,14 @@ fn one_case(
         }
     }
 
+    if let (Some(v), true) = (&loop_verdict, matched) {
+        out.violate(
+            format!("C02/{}/run-loop", opname(w)),
+            id,
+            v.clone(),
+            J::obj(vec![("word", J::s(format!("x{:04X}", w))), ("pc_of_instruction", J::s(format!("x{:04X}", st.pc.wrapping_sub(1)))), ("stack_feature", J::B(stack_on))]),
+        );
+    }
     // ---- classes / floors
     out.class(opclass(w));
     out.class(if stack_on { "stack_on" } else { "stack_off" });
